@@ -47,6 +47,7 @@ inductive Step where
   | wrapScalar
   | checkTypes
   | checkFlat
+  | checkFlatNonEmpty
   | convertIf (gs : List Guard)
   | takeShape
   | resizeOrCreate
@@ -138,6 +139,13 @@ def step (m : M) : Step → M × Option Nix.Err
     if m.x.elems.all (·.typeOk) then (m, none) else (m, some .typeError)
   | .checkFlat =>
     if m.x.rank == 1 then (m, none) else (m, some .valueError)   -- `if np.ndim(x) != 1: raise ValueError`
+  | .checkFlatNonEmpty =>        -- `if x is not None and len(x) != 0 and np.ndim(x) != 1: raise ValueError`
+    match m.x with
+    | .none => (m, none)
+    | .scalar _ => (m, some .typeError)          -- `len(5)`
+    | .unsized _ => (m, some .typeError)         -- `len()` of a 0-d array
+    | .seq _ _ => (m, none)
+    | .nested _ _ es => if es.isEmpty then (m, none) else (m, some .valueError)
   | .convertIf gs =>
     if gs.all (guardHolds m) then
       if m.x.elems.all (·.convOk) then ({ m with converted := true }, none) else (m, some .valueError)
